@@ -221,17 +221,40 @@ def build(e, cfg, d='/ds'):
     rawmode = opt.get('raw', 'yes' if cfg.get('raw') else 'no')
     dat_line = 'dat_path = []\n'
     if rawmode != 'no':
-        D = z3.Function('Raw', z3.IntSort(), z3.IntSort())
-        nr = e.int('n_raw', 1, 59999) if sym else 60   # one default chunk (600 s at 100 Hz); chunking is C16
-        if sym:
-            e.prefer.append(nr <= 64)
-            if not isinstance(ks[-1], core.Sym):
-                e.assume(nr > ks[-1])
+        D = z3.Function('Raw', z3.IntSort(), z3.IntSort(), z3.IntSort())      # (file, byte offset) -> value
         isz = 2
-        ent = vfs.raw_entry(nr * ncd * isz, lambda o, dt: SymInt(D(core.term_of(o))))
-        fs.add(d + '/data.bin', ent)
-        ds.raw = (D, nr, ncd, isz)
-        dat_line = 'dat_path = "data.bin"\n'
+        nparts = cfg.get('raw_parts', 1)
+        sizes = []
+        for pi in range(nparts):
+            s_ = e.int('n_raw%d' % pi, 1, 59999 // nparts) if sym else 60   # one default chunk in total (chunking: C16)
+            if sym:
+                e.prefer.append(s_ <= 32)
+            sizes.append(s_)
+        nr = sizes[0]
+        for s_ in sizes[1:]:
+            nr = nr + s_
+        if sym and not isinstance(ks[-1], core.Sym):
+            e.assume(nr > ks[-1])
+        names_ = []
+        for pi, s_ in enumerate(sizes):
+            fn_ = 'data.bin' if nparts == 1 else 'data%d.bin' % pi
+            ent = vfs.raw_entry(s_ * ncd * isz, (lambda pi: lambda o, dt: SymInt(D(pi, core.term_of(o))))(pi))
+            fs.add(d + '/' + fn_, ent)
+            names_.append(fn_)
+        bounds = [0]
+        for s_ in sizes:
+            bounds.append(bounds[-1] + s_)
+
+        def raw_elem(row, col):
+            """raw sample at (row of the concatenated recording, raw column)"""
+            r = None
+            for pi in range(nparts - 1, -1, -1):
+                v = SymInt(D(pi, core.term_of(((row - bounds[pi]) * ncd + col) * isz)))
+                r = v if r is None else ite(row < bounds[pi + 1], v, r)
+            return r
+        ds.raw = (raw_elem, nr, ncd, isz)
+        ds.raw_sizes = sizes
+        dat_line = 'dat_path = %s\n' % (repr(names_[0]) if nparts == 1 else repr(names_))
     ds.params_text = (dat_line + 'n_channels_dat = %d\ndtype = "int16"\noffset = 0\nsample_rate = %r\n'
                       'hp_filtered = False\n' % (ncd, RATE))
     fs.add(d + '/params.py', vfs.Entry('text', text=ds.params_text))
@@ -244,6 +267,7 @@ def case_of(ev, ds):
          'extra': {k: ev(v) for k, v in ds.extra.items()}}
     if ds.raw is not None:
         c['n_raw'] = ev(ds.raw[1])
+        c['raw_sizes'] = ev(ds.raw_sizes)
     return c
 
 
@@ -336,9 +360,16 @@ class RealDS(object):
             if nr * ncd > 4_000_000:
                 raise core.TooLarge('raw rows %d' % nr)
             raw = ((np.arange(nr * ncd) * 7 + 3) % 2001 - 1000).astype(np.int16).reshape(nr, ncd)
-            raw.tofile(os.path.join(d, 'data.bin'))
+            sizes = case.get('raw_sizes', [nr])
+            names_ = []
+            i0 = 0
+            for pi, s_ in enumerate(sizes):
+                fn_ = 'data.bin' if len(sizes) == 1 else 'data%d.bin' % pi
+                raw[i0:i0 + s_].tofile(os.path.join(d, fn_))
+                i0 += s_
+                names_.append(fn_)
             self.rawdata = raw
-            dat_line = 'dat_path = "data.bin"\n'
+            dat_line = 'dat_path = %s\n' % (repr(names_[0]) if len(sizes) == 1 else repr(names_))
         with open(os.path.join(d, 'params.py'), 'w') as f:
             f.write(dat_line + 'n_channels_dat = %d\ndtype = "int16"\noffset = 0\nsample_rate = %r\n'
                     'hp_filtered = False\n' % (ncd, RATE))
